@@ -304,3 +304,49 @@ func VC07_race() {
 	}
 	vrt.Assert(!vuExists(p1) && !vuExists(p2), "the folded files are removed")
 }
+
+// VC07_later: the uploader runs twice in one process. At the first run the second week's
+// counter file is still active and is only looked at; the program goes on counting into
+// it; the run after its end folds the file's final content into the week's report.
+func VC07_later() {
+	vuReset()
+	e1 := vrt.DaysFromCivil(2024, 1, 7)
+	vos.AddFile(vuDir+"/mode", []byte("local"))
+	v1, v2, w2 := vrt.U64(), vrt.U64(), vrt.U64()
+	vrt.Assume(v1 > 0 && v1 <= v2 && v2 < 1<<60 && w2 > 0 && w2 < 1<<60)
+	u := vuUploader(&telemetry.UploadConfig{}, vuInstant(e1+2, vrt.SecondOfDay()))
+	path := vuAddCountFile(u, "g", e1, e1+7, c7builds[0], map[string]uint64{c7names[0]: v1})
+	err := u.Run()
+	vrt.Assert(err == nil, "first run succeeds")
+	vrt.Assert(vuExists(path), "the active counter file is left alone")
+	// more counts arrive: same file, new content
+	vuAddCountFile(nil, "g2", e1, e1+7, c7builds[0], map[string]uint64{c7names[0]: v2, c7names[1]: w2})
+	vos.Lookup(path).Data = []byte("count:g2")
+	vos.Remove(vuDir + "/local/g2.v1.count")
+	u2 := vuUploader(&telemetry.UploadConfig{}, vuInstant(e1+7+1+int64(vrt.Choose(2)), vrt.SecondOfDay()))
+	err = u2.Run()
+	vrt.Assert(err == nil, "second run succeeds")
+	week := vrt.DateStr(e1 + 7)
+	nd := vos.Lookup(vuDir + "/local/local." + week + ".json")
+	vrt.Assert(nd != nil && !vuExists(path), "the expired file is folded into its week's report and removed")
+	if nd == nil {
+		return
+	}
+	r := vuReport(nd.Data)
+	vrt.Assert(r != nil && len(r.Programs) == 1, "one program report")
+	if r == nil || len(r.Programs) != 1 {
+		return
+	}
+	get := func(p *telemetry.ProgramReport, k string) (int64, bool) {
+		if c7isStack(k) {
+			v, ok := p.Stacks[k]
+			return v, ok
+		}
+		v, ok := p.Counters[k]
+		return v, ok
+	}
+	a, okA := get(r.Programs[0], c7names[0])
+	b, okB := get(r.Programs[0], c7names[1])
+	vrt.Assert(okA && a == int64(v2), "the report holds the file's final value, not the one an earlier run saw")
+	vrt.Assert(okB && b == int64(w2), "a counter that appeared after the earlier run is in the report")
+}
